@@ -506,9 +506,27 @@ def datelang(run, p):
            node=inexact[0] if inexact else None)
     # writer: date-typed values are stringified with str()
     w = p.method('Constraint', 'to_dict_value')
-    src = ast.unparse(w.node)
-    ok = 'str(self.value)' in src and 'datetime.datetime' in src and 'datetime.date' in src
-    run.ob('C01-DATELANG', 'tdda/constraints/base.py::Constraint.to_dict_value::writer', ok, 'date values are rendered with str()', fn=w, nontrivial=False)
+    import datetime as dt
+    from ..pyeval import Interp, Obj, Unsupported, Raised
+    ok = True
+    shown = []
+    for v in (dt.date(2020, 2, 29), dt.datetime(2020, 2, 29, 1, 2, 3), dt.datetime(2020, 2, 29, 1, 2, 3, 456), 5, 'text'):
+        o = Obj(p.cls('Constraint'))
+        o.attrs.update(kind='min', value=v, precision=None, comment=None)
+        I = Interp(p)
+        I.safe_modules = {'datetime'}
+        I.extra_names['datetime'] = dt
+        try:
+            got = I.call(w, [], {'raw': False}, selfobj=o)
+        except (Unsupported, Raised) as e:
+            raise AnalysisError('Constraint.to_dict_value is not evaluable: %s' % e)
+        want = str(v) if isinstance(v, dt.date) else v
+        if not (got == want and type(got) is type(want)):
+            ok = False
+            shown.append('%r is written as %r' % (v, got))
+    run.ob('C01-DATELANG', 'tdda/constraints/base.py::Constraint.to_dict_value::writer', ok,
+           'date values are rendered with str() (evaluated on a date, two datetimes and two plain values)%s' % ('' if ok else ': ' + '; '.join(shown[:2])),
+           fn=w, nontrivial=False)
     run.floor('C01-DATELANG', n_eval, 100)
 
 
